@@ -119,9 +119,11 @@ def build(lines=False, points=()):
             plain = _plain(cls, k)
             if plain in names:
                 body[k] = CS.coroutinize(fn, names, lines=(plain in line_methods), mangle=cls.__name__, rebind={"time": CoTime},
-                                               locks=LOCK_ATTRS, points=points)
+                                               locks=LOCK_ATTRS, points=points, owner=cls)
         return body
     bodies = {cls: co_body(cls) for cls in CLASSES}
+    CS.SUPER_BODIES.clear()
+    CS.SUPER_BODIES.update(bodies)
     for cls in CLASSES:
         body = {}
         for base in reversed(cls.__mro__):
@@ -394,11 +396,11 @@ class CoBoot:
                 short = short if n == 0 else f"{short}{n + 1}"
                 boot.threads.append(short)
                 boot.sched.spawn(short, boot._guard(short, gen), daemon=True)
+                return CS._done()          # `start` is a yielding name: a transformed caller drives this no-op
 
             def join(self, timeout=None):
                 raise HarnessError("Thread.join in the code under test is not modelled")
-        for mod in (T, S, SM):
-            setattr(mod, "threading", _Mod(_real_module(mod, "threading"), Thread=Thread))
+        over = {mod: {"threading": _Mod(_real_module(mod, "threading"), Thread=Thread)} for mod in (T, S, SM)}
 
         # ---- sockets and selectors
         def mk_socket(*a, **k):
@@ -417,8 +419,8 @@ class CoBoot:
             sel = CoSelector()
             boot.selectors.append(sel)
             return sel
-        T.socket = _Mod(_real_module(T, "socket"), socket=mk_socket)
-        T.selectors = _Mod(_real_module(T, "selectors"), DefaultSelector=mk_selector)
+        over[T]["socket"] = _Mod(_real_module(T, "socket"), socket=mk_socket)
+        over[T]["selectors"] = _Mod(_real_module(T, "selectors"), DefaultSelector=mk_selector)
 
         # ---- objects created by start()
         def mk_transport(real_cls):
@@ -431,17 +433,17 @@ class CoBoot:
                 boot.transports.append(t)
                 return t
             return make
-        S.TcpClient, S.TcpServer = mk_transport(T.TcpClient), mk_transport(T.TcpServer)
+        over[S]["TcpClient"], over[S]["TcpServer"] = mk_transport(T.TcpClient), mk_transport(T.TcpServer)
 
         def mk_assoc(conn, base):
-            a = S.DiameterAssociation.__new__(K[S.DiameterAssociation])
+            a = _RealAssoc.__new__(K[_RealAssoc])
             _RealAssoc.__init__(a, conn, base)
             CS.standinize(a, boot._prims)
             boot.assocs.append(a)
             return a
 
         def mk_psm(assoc):
-            psm = SM.PeerStateMachine.__new__(K[SM.PeerStateMachine])
+            psm = _RealPsm.__new__(K[_RealPsm])
             _RealPsm.__init__(psm, assoc)
             real_states = dict(psm.states)
             psm.states = {k: K[type(v)](assoc) for k, v in real_states.items()}
@@ -454,9 +456,33 @@ class CoBoot:
                 if v is cur:
                     return k
             raise HarnessError("current state not among the states")
-        S.DiameterAssociation, S.PeerStateMachine = mk_assoc, mk_psm
+        over[S]["DiameterAssociation"], over[S]["PeerStateMachine"] = mk_assoc, mk_psm
+        self._patch(over)
         CoTime.polite = False
         CoTime.work = self._work
+
+    def _patch(self, over):
+        """bind the overrides in the real modules AND in the globals of every coroutinised method that came from them (those
+        were compiled against a snapshot of the module globals)"""
+        self._undo = []
+        for mod, names in over.items():
+            for k, v in names.items():
+                self._undo.append((mod.__dict__, k, mod.__dict__.get(k)))
+                mod.__dict__[k] = v
+        seen = set()
+        for cls in self.K.values():
+            if not isinstance(cls, type):
+                continue
+            for f in vars(cls).values():
+                orig = getattr(f, "__coro_of__", None)
+                if orig is None or id(f.__globals__) in seen:
+                    continue
+                seen.add(id(f.__globals__))
+                for mod, names in over.items():
+                    if orig.__module__ == mod.__name__:
+                        for k, v in names.items():
+                            self._undo.append((f.__globals__, k, f.__globals__.get(k)))
+                            f.__globals__[k] = v
 
     def connect(self):
         """peer side: a new inbound connection on the latest listening socket; -> the server-side CoSocket"""
@@ -483,8 +509,9 @@ class CoBoot:
             self.crashed[name] = f"{type(e).__name__}: {e}"
 
     def restore(self):
-        S.DiameterAssociation, S.PeerStateMachine = _RealAssoc, _RealPsm
-        S.TcpClient, S.TcpServer = T.TcpClient, T.TcpServer
+        for d, k, old in reversed(self._undo):
+            d[k] = old
+        self._undo = []
 
     # accessors for the oracle (the connection made by the latest start())
     @property
